@@ -359,6 +359,36 @@ Proof.
   - unfold kp_of in Hk. unfold isfile in Hf. destruct (lookup T cf) as [[g|]|]; discriminate.
 Qed.
 
+(* when is the next tree a tree: the final tree is one; the directory of the cache file must still be there
+   (it can be pruned during the build, see CoreNextEx.findingD) and nothing may lie below the cache file path *)
+Theorem core_build_tree_wf : forall (kp : kappa) (F : ftable) fs cf old vers clock nextid root s1,
+  Obeys F root -> Respects F -> cache_wf old -> faithful_cache kp F old vers ->
+  kp_init kp fs -> kp_new kp clock -> fs_wf fs ->
+  cr_state (core_build fs cf old vers clock nextid root) = Some s1 -> fs_wf (k_fs s1).
+Proof.
+  intros kp F fs cf old vers clock nextid root s1 HO HR HW HF HI HN W Hs.
+  destruct (core_build_setup kp fs cf old vers clock nextid root s1 HI W Hs)
+    as (s0 & r0 & res & pd & sb & r1 & res_r & pd_r & Ec & Er & S0 & K0 & I0 & L0 & _).
+  destruct (T1 kp F old vers clock HR HW HF HN root HO _ _ _ _ _ _ _ _ _ _ _ _ S0 K0 I0 L0 Ec Er) as [_ [_ [S1 _]]].
+  destruct (ref_run_inv _ _ _ _ _ _ _ I0 Er) as [I1 _].
+  eapply te_wf; [apply te_sym; exact (proj1 S1)|]. exact (RInv_wf _ _ I1).
+Qed.
+
+Lemma next_fs_wf : forall cf s1, fs_wf (k_fs s1) -> cf <> [] ->
+  lookup (k_fs s1) (dirname cf) = Some NDir -> (forall n, lookup (k_fs s1) (n :: cf) = None) ->
+  fs_wf (next_fs cf s1).
+Proof.
+  intros cf s1 W Hne Hpar Hbelow q n Hq. unfold next_fs in *.
+  assert (Hd : dirname cf <> cf) by (destruct cf; [congruence|apply cons_neq]).
+  destruct (path_eqb q cf) eqn:E.
+  - apply path_eqb_eq in E. subst q. rewrite lookup_upd_neq by exact Hd. exact Hpar.
+  - apply path_eqb_neq in E. rewrite lookup_upd_neq in Hq by exact E.
+    destruct (path_eqb (dirname q) cf) eqn:E2.
+    + apply path_eqb_eq in E2. destruct q as [|x d]; [cbn in E2; congruence|]. cbn in E2. subst d.
+      rewrite Hbelow in Hq. discriminate.
+    + apply path_eqb_neq in E2. rewrite lookup_upd_neq by exact E2. eapply W; eauto.
+Qed.
+
 (* ------------------------------------------------------------------ *)
 (* Corollary: two consecutive builds                                  *)
 (* ------------------------------------------------------------------ *)
